@@ -228,18 +228,18 @@ META = {
         "(e.g. 0.3 ns) to an own time of the other observable."
     ),
     "outside": [
-        "more than 3 steps / 2 requested times per observable; durations other than 1, 20, 1000 ns",
+        "more than 4 steps (quick: 3) / 2 requested times per observable; durations other than 1, 20, 40, 1000 ns",
         "the numeric evolution between two times (C01/C02)",
         "Pulser's config.is_time_in_evaluation_times is replaced by its definition on symbolic scalars",
         "DMRG's sweep_complete (convergence-driven, same fill_results)",
     ],
-    "assumptions": ["target-time grid satisfies C21's contract", "requested evaluation times are grid times"],
+    "assumptions": ["in the stepping cases the target-time grid is a symbolic grid satisfying C21's contract that contains the requested times; that the real grid has this property is what the requested_times_on_grid_* cases decide"],
 }
 
 
 def cases(tier):
     out = []
-    grid = [(1, 20), (2, 20), (3, 1000)] if tier == "quick" else [(1, 1), (1, 20), (2, 20), (2, 1), (3, 20), (3, 1000)]
+    grid = [(1, 20), (2, 20), (3, 1000)] if tier == "quick" else [(1, 1), (1, 20), (2, 20), (2, 1), (3, 20), (3, 1000), (4, 40)]
     for k, d in grid:
         for name, mk in (("sv", sv_run), ("mps", mps_run)):
             out.append(
